@@ -288,9 +288,16 @@ def Schema.isRecVar (d : Schema) (v : Var) : Bool :=
   | [] => false
   | id :: _ => d.isRecDim id
 
-/-- number of elements of a variable (one record's worth for a record variable) -/
+/-- length of a dimension as a factor of a variable's size: the record dimension counts as 1 -/
+def Schema.dimFactor (d : Schema) (id : Nat) : Nat :=
+  match d.dims[id]? with
+  | some dm => if dm.size = 0 then 1 else dm.size
+  | none => 1
+
+/-- number of elements of a variable (one record's worth for a record variable): the product of
+    its dimension lengths -/
 def Schema.nelems (d : Schema) (v : Var) : Nat :=
-  (v.dimids.map (fun id => match d.dims[id]? with | some dm => (if dm.size == 0 then 1 else dm.size) | none => 1)).foldl (· * ·) 1
+  (v.dimids.map d.dimFactor).foldr (· * ·) 1
 
 /-- bytes one variable (one record of it) occupies, padded to 4: what vsize stands for -/
 def Schema.varLen (d : Schema) (v : Var) : Nat := rndup4 (d.nelems v * v.xtype.size)
